@@ -175,7 +175,8 @@ class ValidatingEvaluator(Evaluator):
         if cons_jac.shape != (self.num_cons, self.num_vars):
             raise EvalError("Invalid shape of Jacobian", x)
 
-        if not np.isfinite(cons_jac.data).all():
+        # Not all sparse formats (LIL, DOK) store their entries in a flat array
+        if not np.isfinite(cons_jac.tocoo().data).all():
             raise EvalError("Non-finite Jacobian", x)
 
         return astype(cons_jac, self.dtype)
@@ -186,10 +187,12 @@ class ValidatingEvaluator(Evaluator):
         if lag_hess.shape != (self.num_vars, self.num_vars):
             raise EvalError("Invalid shape of Hessian", x)
 
-        if not np.isfinite(lag_hess.data).all():
+        # Not all sparse formats (LIL, DOK) store their entries in a flat array
+        coo_hess = lag_hess.tocoo()
+
+        if not np.isfinite(coo_hess.data).all():
             raise EvalError("Non-finite Hessian", x)
 
-        coo_hess = lag_hess.tocoo()
         coo_hess_T = coo_hess.T
 
         orig_pattern = set(zip(coo_hess.row, coo_hess.col))
